@@ -5,15 +5,20 @@
 (* harness runs the real engine R times under perturbed / rendez-vous schedules and        *)
 (* compares with the engine's own sequential path (the statement's oracle).                *)
 EXTENDS Naturals, TLC, Json
-CONSTANTS Ns, Threads, MinPers
+CONSTANTS Ns, Threads, MinPers, Deeps
 VARIABLES done, last
 (* salience patterns: 1 all equal; 2 two alternating levels; 3 three blocks; 4 all distinct *)
 (* disabled patterns: 0 none; 1 every 5th rule; 2 the whole top salience level              *)
+(* deep: nesting depth of the condition tree of the middle rule (a left-deep conjunction,   *)
+(* as the GRL parser builds for `a && b && c ...`); 0 = the plain two-term condition        *)
+(* Every case is also run with ONE engine reused across two knowledge bases of the same     *)
+(* name and the same number of rules (hence the same version) but different thresholds.     *)
 Init == done = FALSE /\ last = [op |-> "init"]
-Configure(n, pat, dis, mt, mp, par) ==
+Configure(n, pat, dis, mt, mp, par, deep) ==
     /\ done' = TRUE
-    /\ last' = [op |-> "configure", n |-> n, pat |-> pat, dis |-> dis, threads |-> mt, minper |-> mp, par |-> par]
-Next == \E n \in Ns, pat \in 1..4, dis \in 0..2, mt \in Threads, mp \in MinPers, par \in BOOLEAN : Configure(n, pat, dis, mt, mp, par)
+    /\ last' = [op |-> "configure", n |-> n, pat |-> pat, dis |-> dis, threads |-> mt, minper |-> mp, par |-> par, deep |-> deep]
+Next == \E n \in Ns, pat \in 1..4, dis \in 0..2, mt \in Threads, mp \in MinPers, par \in BOOLEAN, deep \in Deeps :
+            (deep > 0 => dis = 0 /\ mp = 1 /\ par) /\ Configure(n, pat, dis, mt, mp, par, deep)
 Obs == [returned |-> TRUE, same_as_sequential |-> TRUE]
 View == done
 Edge == PrintT(ToJson([s |-> [x |-> 0], l |-> last', o |-> Obs, t |-> [x |-> 0]]))
